@@ -64,10 +64,12 @@ function* directives(full) {
   for (const special of ['v-html', 'v-text', 'vHtml']) for (const shape of ['x', 'call', 'str', 'strBsl', 'strEnt', 'strSq', 'strNL']) yield { special, shape };
 }
 
-function* contexts(full) {
+function* contexts(full, extra) {
   const maxAttrs = full ? 2 : 1;
-  for (const seq of sequences(CO_ATTRS.length, maxAttrs, { distinct: true })) {
-    const attrs = seq.map((i) => CO_ATTRS[i]);
+  // the small contexts also take an attribute whose value is a bare JSX element (`jb=<b/>`: lowered by re-entering the element code)
+  const CO = extra ? CO_ATTRS.concat(['jsxBare', 'jsxval']) : CO_ATTRS;
+  for (const seq of sequences(CO.length, maxAttrs, { distinct: true })) {
+    const attrs = seq.map((i) => CO[i]);
     for (let pos = 0; pos <= attrs.length; pos++) for (const ch of (full ? CO_CHILDREN : ['none', 'bx'])) for (const second of Object.keys(SECOND)) {
       yield { attrs, pos, ch, second };
     }
@@ -80,7 +82,7 @@ function spaces(tier) {
     {
       name: 'D:full-grammar×small-contexts',
       bounds: { names: Object.keys(NAMES), arg: [false, true], modifiers: Object.keys(MODS), value_shapes: Object.keys(SHAPES), hosts: HOSTS, contexts: thorough ? 'co-attributes ≤2 of 5 at every position × children × second directive' : 'co-attributes ≤1 × position × {no child, {x}} × second directive' },
-      *gen() { for (const host of HOSTS) for (const d of directives(true)) for (const k of contexts(thorough)) yield { host, d, k }; },
+      *gen() { for (const host of HOSTS) for (const d of directives(true)) for (const k of contexts(thorough, true)) yield { host, d, k }; },
     },
     {
       name: 'D:core-grammar×full-contexts',
